@@ -120,7 +120,10 @@ where
         let data = self.stream.buf_mut().take_chunk(self.remaining_data);
 
         match (data, end) {
-            (None, true) => Poll::Ready(Ok(None)),
+            // A webtransport stream has no length, its payload runs to the end of the stream
+            (None, true) if self.remaining_data == usize::MAX => Poll::Ready(Ok(None)),
+            // The stream ended before the payload announced by the frame header was received
+            (None, true) => Poll::Ready(Err(FrameStreamError::UnexpectedEnd)),
             (None, false) => Poll::Pending,
             (Some(d), true)
                 if d.remaining() < self.remaining_data
